@@ -33,7 +33,7 @@ Inductive kind :=
 | KCall        (* C01: a root start / Process call / return that the model does not allow here (order, at most once) *)
 | KChain       (* C01: a node was given another event than the one its predecessor returned (or than Send's event) *)
 | KSkipped     (* C01: the Range loop ended with pipelines unstarted although the context was live *)
-| KCalls       (* C01: the nodes' own invocation log differs from the calls of the accepted trace *)
+| KCalls       (* C01: the nodes' own log of invocations and returns differs from the calls / returns of the accepted trace *)
 | KEvent0      (* C01, observation only: the event given to a first node lacks type / payload / time / empty format table *)
 | KRegistry    (* C01: the pipelines the implementation holds for the type differ from the registry model's *)
 | KRecv        (* C02: the collector received a Status that is not the sender's *)
@@ -42,6 +42,7 @@ Inductive kind :=
 | KErr         (* C02: error nil / non-nil differs from get_error *)
 | KErrCtx      (* C02: the error does / does not wrap the context's error *)
 | KNoGraph     (* C02: Send for a type without graph must fail and do nothing *)
+| KInvented    (* C02, observation only: more Status entries than registered pipelines, or, uncancelled, not exactly one each *)
 | KProto       (* C03: a protocol event (hand-off, exit, wait, close, collector) that is not enabled in the model *)
 | KLeak        (* C03: every node has returned, yet an invocation never exited or the channel was never closed *)
 | KHang.       (* C03: Send did not return *)
@@ -58,10 +59,10 @@ Record dcase := {
   d_ety : N;                               (* event type sent *)
   d_snapshot : option (list root);         (* the implementation's pipelines for the type, sorted by id (None: no graph) *)
   d_pre : bool;                            (* the context was cancelled before Send was called *)
-  d_e0 : N;                                (* identity of the event the first root call received *)
   d_trace : list ev;
   d_quiet : bool;                          (* every harness node returned and the grace period passed: the trace is final *)
   d_nodecalls : list (N * N);              (* the nodes' own log: (object, event given) per Process invocation *)
+  d_noderets : list (N * N * outcome);     (* the nodes' own log: (object, event given, what it returned) per return *)
   d_event0_ok : bool;                      (* every first-node event carried the sent type, payload, a time, no formats *)
   d_status : list N * list N * list N;     (* returned Status: Complete(), CompleteSinks(), warning identities *)
   d_err : bool;                            (* err <> nil *)
@@ -80,6 +81,14 @@ Fixpoint lookup_ret (p k : N) (tr : list ev) : outcome :=
   | EvRet p' k' o :: t => if N.eqb p p' && N.eqb k k' then o else lookup_ret p k t
   | _ :: t => lookup_ret p k t
   end.
+Fixpoint lookup_e0 (p : N) (tr : list ev) : N :=
+  match tr with
+  | [] => 0%N
+  | EvCall p' k _ ein :: t => if N.eqb p p' && N.eqb k 0 then ein else lookup_e0 p t
+  | _ :: t => lookup_e0 p t
+  end.
+(* the event each pipeline's first node was given (checked separately to carry the sent type, payload, time, no formats) *)
+Definition e0_of (tr : list ev) : N -> N := fun p => lookup_e0 p tr.
 (* the behaviour the harness nodes exhibited during this Send *)
 Definition beh_of (tr : list ev) : N -> N -> N -> outcome := fun p k _ => lookup_ret p k tr.
 
@@ -116,17 +125,18 @@ Record ast := {
   a_st : st;
   a_recv : nat;       (* statuses the collector has acknowledged *)
   a_pend : bool;      (* the collector left its loop; its read of ctx.Err() is placed after the cancellation still to come *)
+  a_rets : list (N * N * outcome);   (* (object, event given, outcome) of every node return accepted so far *)
 }.
 
 Section Accept.
   Variable beh : N -> N -> N -> outcome.
-  Variable e0 : N.
+  Variable e0 : N -> N.
   (* the value of ctx.Err() <> nil that the returned error exhibits, when there is an error to look at *)
   Variable want_ctx : option bool.
 
   Definition ex (l : label) (a : ast) (k : kind) : ast + kind :=
     match exec beh e0 l (a_st a) with
-    | Some s' => inl {| a_st := s'; a_recv := a_recv a; a_pend := a_pend a |}
+    | Some s' => inl {| a_st := s'; a_recv := a_recv a; a_pend := a_pend a; a_rets := a_rets a |}
     | None => inr k
     end.
 
@@ -137,7 +147,7 @@ Section Accept.
     | None => ex LReturn a KProto
     | Some w =>
         if Bool.eqb w now then ex LReturn a KProto
-        else if w then inl {| a_st := a_st a; a_recv := a_recv a; a_pend := true |}   (* cancelled between loop exit and return *)
+        else if w then inl {| a_st := a_st a; a_recv := a_recv a; a_pend := true; a_rets := a_rets a |}   (* cancelled between loop exit and return *)
         else inr KErrCtx                                                              (* done at loop exit, yet not wrapped *)
     end.
 
@@ -151,7 +161,7 @@ Section Accept.
     match e with
     | EvCancel =>
         match ex LCancel a KProto with
-        | inl a' => if a_pend a' then ex LReturn {| a_st := a_st a'; a_recv := a_recv a'; a_pend := false |} KProto else inl a'
+        | inl a' => if a_pend a' then ex LReturn {| a_st := a_st a'; a_recv := a_recv a'; a_pend := false; a_rets := a_rets a' |} KProto else inl a'
         | inr k => inr k
         end
     | EvStart p =>
@@ -169,7 +179,13 @@ Section Accept.
           end)
     | EvRet p k o =>
         with_task p k a KCall (fun i t =>
-          if outcome_eqb o (beh p k (tev t)) then ex (LRet i) a KCall else inr KCall)
+          if outcome_eqb o (beh p k (tev t)) then
+            match tnodes t with
+            | n :: _ => ex (LRet i) {| a_st := a_st a; a_recv := a_recv a; a_pend := a_pend a;
+                                       a_rets := (nobj n, tev t, o) :: a_rets a |} KCall
+            | [] => inr KCall
+            end
+          else inr KCall)
     | EvDelivered p k => with_task p k a KProto (fun i _ => ex (LHandoff i) a KProto)
     | EvAborted p k =>
         with_task p k a KProto (fun i t =>
@@ -191,7 +207,7 @@ Section Accept.
         | CCollect acc =>
             match nth_error acc (a_recv a) with
             | Some m => if eq_obs (msg_obs m) (cs, sk, ws)
-                        then inl {| a_st := a_st a; a_recv := S (a_recv a); a_pend := a_pend a |} else inr KRecv
+                        then inl {| a_st := a_st a; a_recv := S (a_recv a); a_pend := a_pend a; a_rets := a_rets a |} else inr KRecv
             | None => inr KRecv
             end
         | _ => inr KRecv
@@ -232,7 +248,10 @@ Definition model_thr (c : dcase) : Z * Z := thresholds_of (run nocf (d_hist c)) 
 
 Definition end_kind := 0%N.
 
-Definition final_checks (c : dcase) (s : st) : list kind :=
+Definition enc_out (o : outcome) : N := match o with ODrop => 0 | OPass e => 2 * e + 1 | OErr x => 2 * x + 2 end%N.
+Definition enc_ret (r : N * N * outcome) : N := enc (enc (fst (fst r)) (snd (fst r))) (enc_out (snd r)).
+
+Definition final_checks (c : dcase) (s : st) (rets : list (N * N * outcome)) : list kind :=
   match result s with
   | Some (acc, b) =>
       (if eq_obs (sortN (completes acc), sortN (complete_sinks acc), sortN (warnings acc))
@@ -244,7 +263,8 @@ Definition final_checks (c : dcase) (s : st) : list kind :=
   | None => []
   end ++
   (if eqNl (sortN (map (fun cl => enc (nobj (fst cl)) (snd cl)) (clog s))) (sortN (map (fun oc => enc (fst oc) (snd oc)) (d_nodecalls c)))
-   then [] else [KCalls]).
+   then [] else [KCalls]) ++
+  (if eqNl (sortN (map enc_ret rets)) (sortN (map enc_ret (d_noderets c))) then [] else [KCalls]).
 
 Definition is_terminal (s : st) : bool :=
   match coll s, rng s with CRet, RClosed => true | _, _ => false end.
@@ -269,18 +289,20 @@ Definition run_case (c : dcase) : list (N * N * kind) :=
                  | Some sn => if eq_list root_eqb roots sn then [] else [KRegistry]
                  | None => [KRegistry]
                  end in
-      match reg with
-      | _ :: _ => tagE (reg ++ oracle)
-      | [] =>
-          let beh := beh_of (d_trace c) in
-          let want := if d_err c then Some (d_err_ctx c) else None in
-          let a0 := {| a_st := init roots (d_pre c); a_recv := 0; a_pend := false |} in
-          match run_trace beh (d_e0 c) want a0 0%N (d_trace c) with
-          | (_, Some m) => m :: tagE oracle
-          | (a, None) =>
-              tagE ((if d_quiet c && returned_seen (d_trace c) && negb (is_terminal (a_st a)) then [KProto] else []) ++
-                    final_checks c (a_st a) ++ oracle)
-          end
+      let entries := length (fst (fst (d_status c))) + length (snd (d_status c)) in
+      let cancelled := d_pre c || has_ev (fun e => match e with EvCancel => true | _ => false end) (d_trace c) in
+      let invented :=
+        if Nat.ltb (length roots) entries || (negb cancelled && returned_seen (d_trace c) && negb (Nat.eqb entries (length roots)))
+        then [KInvented] else [] in
+      let beh := beh_of (d_trace c) in
+      let want := if d_err c then Some (d_err_ctx c) else None in
+      let a0 := {| a_st := init roots (d_pre c); a_recv := 0; a_pend := false; a_rets := [] |} in
+      (* the trace is replayed over the pipelines the registration history registered (registry model) *)
+      match run_trace beh (e0_of (d_trace c)) want a0 0%N (d_trace c) with
+      | (_, Some m) => m :: tagE (reg ++ invented ++ oracle)
+      | (a, None) =>
+          tagE ((if d_quiet c && returned_seen (d_trace c) && negb (is_terminal (a_st a)) then [KProto] else []) ++
+                final_checks c (a_st a) (a_rets a) ++ reg ++ invented ++ oracle)
       end
   end.
 
